@@ -312,7 +312,7 @@ func applyModel(model []rec, names []string, a fixAction) ([]rec, []string) {
 
 var fixUps = ev.Register(&ev.P[fixCase]{
 	Name: "fixups_reflected_exactly",
-	Rule: "stateful: the table is reset (hook), then a generated sequence of Fix calls — add records for days not in the table (before the first record, between records, after the last), replace (other name index / work flag / target), remove (~), remove-absent, replace the name list (also by a longer one, up to 14 names, whose indices from 10 on are written as the characters after '9') — usually one segment per day within one call, sometimes two for the same day (they apply in order, the last one stands); after EVERY call all views (by day, month, year, target) are compared with the map model updated by the same segments, so added, replaced and removed records are reflected exactly and all others are unchanged; non-trivial: the sequence adds a record earlier than the table's last record, or removes/replaces a record whose target groups several days",
+	Rule: "stateful: the table is reset (hook), then a generated sequence of Fix calls — add records for days not in the table (before the first record, between records, after the last), replace (other name index / work flag / target), remove (~), remove-absent, replace the name list (also by a longer one, up to 14 names, whose indices from 10 on are written as the characters after '9') — usually one segment per day within one call, sometimes two for the same day (they apply in order, the last one stands); after EVERY call all views (by day, month, year, target) are compared with the map model updated by the same segments, and working-day steps from the days before each touched day are asked before and after the call and must follow the record set in force, so added, replaced and removed records are reflected exactly and all others are unchanged; non-trivial: the sequence adds a record earlier than the table's last record, or removes/replaces a record whose target groups several days",
 	Check: func(c fixCase) error {
 		HolidayUtil.VerifReset()
 		defer HolidayUtil.VerifReset()
@@ -321,8 +321,51 @@ var fixUps = ev.Register(&ev.P[fixCase]{
 			return err
 		}
 		names := HolidayUtil.VerifNames()
+		// working-day steps from the days just before each touched day are asked before AND after every fix-up (same start,
+		// same counts): the answers follow the record set in force at the time of the question
+		stepsOK := func(model []rec, days []string, when string) error {
+			byDay := map[string]rec{}
+			for _, r := range model {
+				byDay[r.Day] = r
+			}
+			for _, dd := range days {
+				j0 := ref.JDN(atoi(dd[:4]), atoi(dd[4:6]), atoi(dd[6:8]))
+				// the last question before the call and the first one after it are the same question (start and count)
+				offs, ns := []int{-2, -1}, []int{1, 3}
+				if strings.HasPrefix(when, "after") {
+					offs, ns = []int{-1, -2}, []int{3, 4, 1}
+				}
+				for _, off := range offs {
+					for _, n := range ns {
+						sj := j0 + off
+						y, m, d := ref.FromJDN(sj)
+						r := calendar.NewSolar(y, m, d, 9, 0, 0).Next(n, true)
+						cnt, j := 0, sj
+						for cnt < n {
+							j++
+							if workModel(byDay, j) {
+								cnt++
+							}
+						}
+						if rj := ref.JDN(r.GetYear(), r.GetMonth(), r.GetDay()); rj != j {
+							return fmt.Errorf("%s: %04d-%02d-%02d Next(%d,true) = %s, walking the record set in force gives %s", when, y, m, d, n, r.ToYmd(), fmtDay(j))
+						}
+					}
+				}
+			}
+			return nil
+		}
 		for i, a := range c.Actions {
 			var touched []string
+			if a.Kind != "names" {
+				var ds []string
+				for _, sg := range a.Segs {
+					ds = append(ds, sg[:8])
+				}
+				if err := stepsOK(model, ds, fmt.Sprintf("before action %d", i)); err != nil {
+					return err
+				}
+			}
 			if a.Kind == "names" {
 				HolidayUtil.Fix(a.Segs, "")
 			} else {
@@ -334,6 +377,9 @@ var fixUps = ev.Register(&ev.P[fixCase]{
 			model, names = applyModel(model, names, a)
 			if err := compareViews(model, names, touched); err != nil {
 				return fmt.Errorf("after action %d %s %v: %v", i, a.Kind, a.Segs, err)
+			}
+			if err := stepsOK(model, touched, fmt.Sprintf("after action %d %s %v", i, a.Kind, a.Segs)); err != nil {
+				return err
 			}
 		}
 		return nil
@@ -374,6 +420,11 @@ var fixUps = ev.Register(&ev.P[fixCase]{
 
 type stepCase struct {
 	J, N int
+}
+
+func fmtDay(j int) string {
+	y, m, d := ref.FromJDN(j)
+	return fmt.Sprintf("%04d-%02d-%02d", y, m, d)
 }
 
 func workModel(byDay map[string]rec, j int) bool {
